@@ -416,3 +416,9 @@ def run(ctx):
     from .common import import_obligations
     # the pairwise overlap predicates the state test is built from (C12 R1 disc / segment predicates, R3 symmetry) are necessary for 'no overlaps anywhere'
     import_obligations(ctx, 'C12', 'PAIRTEST', only_rules={'R3', 'R1'}, floor=4)
+    # the shape-level test is `any` over the full product of components (C12.R4)
+    import_obligations(ctx, 'C12', 'PAIRTEST', only_rules={'R4'}, floor=2)
+    # the copies tested are the group's copies of the site, wrapped into the cell (C15 R2, R3)
+    import_obligations(ctx, 'C15', 'PLACEMENTS', only_rules={'R2', 'R3'}, floor=4)
+
+
